@@ -211,6 +211,46 @@ func c01Run(c *core.Ctx) {
 			check("let s = "+lit+";\nprint(s.length, s, "+q+f+q+" + s);\nif (s == "+lit+") { print(1) } else { print(2) }", false, 30)
 		}
 	}
+	// (ii-d'') all ordered pairs of the first 30 fragments (quotes raw and in every escaped spelling, backslash,
+	// line escapes, code points) as one literal, in both quote styles, ten literals per program
+	{
+		fr := c07Fragments(30)
+		var lits []string
+		flush := func() {
+			if len(lits) == 0 {
+				return
+			}
+			var sb strings.Builder
+			for i, l := range lits {
+				fmt.Fprintf(&sb, "let s%d = %s;\nprint(s%d.length, s%d);\n", i, l, i, i)
+			}
+			lits = nil
+			c.Inc("literal_pair_programs")
+			check(sb.String(), false, 40)
+		}
+		n := 0
+		for _, x := range fr {
+			for _, y := range fr {
+				for _, q := range []string{"'", "\""} {
+					if x == q || y == q || strings.HasPrefix(x, "\\\n") || strings.HasPrefix(y, "\\\n") {
+						continue
+					}
+					n++
+					if !c.Mine(int64(n / 10)) {
+						continue
+					}
+					if c.Tick() {
+						continue
+					}
+					lits = append(lits, q+x+y+q)
+					if len(lits) == 10 {
+						flush()
+					}
+				}
+			}
+		}
+		flush()
+	}
 	// (ii-e) identifier spellings in every position a name can take
 	for ii, name := range gen.Identifiers() {
 		if !c.Mine(int64(ii)) || c.Tick() {
